@@ -3,7 +3,12 @@
 import json, os, subprocess, sys
 ROOT = os.path.dirname(os.path.dirname(os.path.abspath(__file__)))
 sys.path.insert(0, os.path.join(ROOT, "lib"))
-from registry import REGISTRY, NOT_APPLICABLE, MANIFEST_TEXT
+from registry import REGISTRY, NOT_APPLICABLE, MANIFEST_TEXT, ACCEPTED
+if ACCEPTED is not None:
+    for _p in list(REGISTRY):
+        if _p not in ACCEPTED:
+            del REGISTRY[_p]
+            NOT_APPLICABLE[_p] = "not yet claimed: the development exists in /verif but its check has not been reviewed and accepted yet"
 
 def hook_commits():
     try:
